@@ -479,3 +479,28 @@ Section Ctree.
   Lemma files_nodup : NoDup (map fst (c_files c)).
   Proof. destruct WF as (ND & _). unfold c_paths in ND. apply NoDup_app_r in ND. apply NoDup_app_l in ND. exact ND. Qed.
 End Ctree.
+
+(* ------------------------------------------------------------------ the boolean well-formedness test *)
+
+Lemma nodup_paths_sound l : nodup_paths l = true -> NoDup l.
+Proof.
+  induction l as [|p l IH]; cbn [nodup_paths]; intros H; [constructor|].
+  apply andb_prop in H. destruct H as [H1 H2]. constructor; [|apply IH; assumption].
+  intros HI. apply Bool.negb_true_iff in H1.
+  assert (E : existsb (path_eqb p) l = true) by (apply existsb_exists; exists p; split; [assumption|apply path_eqb_refl]).
+  rewrite E in H1. discriminate.
+Qed.
+
+(** the executable test used on every generated build of the C01 correspondence implies the
+    hypothesis of the theorem *)
+Lemma wf_buildb_sound b : wf_buildb b = true -> wf_build b.
+Proof.
+  unfold wf_buildb. intros H. apply andb_prop in H. destruct H as [H H3]. apply andb_prop in H. destruct H as [H1 H2].
+  split; [apply nodup_paths_sound; assumption|]. split.
+  - intros HI. apply Bool.negb_true_iff in H2.
+    assert (E : existsb (path_eqb []) (map fst b) = true) by (apply existsb_exists; exists []; split; [assumption|reflexivity]).
+    rewrite E in H2. discriminate.
+  - intros p n q Hin Hq. rewrite forallb_forall in H3. specialize (H3 (p, n) Hin). cbn [fst] in H3.
+    rewrite forallb_forall in H3. specialize (H3 q Hq).
+    destruct (tlookup b q) as [[d| |d]|] eqn:E; try discriminate. apply tlookup_in. assumption.
+Qed.
